@@ -66,7 +66,7 @@ def post_layout(S, pre, d, n, W, H, snap, out):
              all(list(e.modules) == ms and e.weight is wt for (e, ms, wt) in esnap))
 
 
-KINDS = [("soft", "fixed"), ("soft", "soft"), ("soft", "fixed_terminal"), ("fixed", "terminal")]
+KINDS = [("soft", "fixed"), ("soft", "soft"), ("soft", "fixed_terminal"), ("fixed", "terminal"), ("fixed", "fixed_terminal")]
 
 
 @contract(P, functions=[F + "fruchterman_reingold_layout"], params=[dict(kinds=list(k)) for k in KINDS], budget_s=900, exact_feas_ms=0, leak_ok=True,
